@@ -156,7 +156,7 @@ def v_gaussian(c):
         c.ensure("non_negative", bool((out.fillna(0).values >= 0).all()))
 
 
-@contract(FQ + "tma", props=["C15"], scenarios=[{}])
+@contract(FQ + "tma", props=["C15"], scenarios=[{}], replays=12)
 def v_tma(c):
     """BOUNDED (concrete replays only): requested hs, non-negativity, deep-water limit equals
     JONSWAP (a limit statement, true to float precision only: not decidable symbolically)"""
